@@ -1223,7 +1223,9 @@ func OutsFlow(d OutsParams) *Program {
 	p.Structs = append(p.Structs, &StructDecl{Name: "OUTER", Fields: []Param{{T: StructT("FS"), Name: "inner"},
 		{T: ArrayOf(FiletypeT("txt")), Name: "list"}, {T: TMapOf(FileT), Name: "m"}, {T: FileT, Name: "named", OutName: "explicit.bin"}}})
 	outs := append(filewOuts(), Param{T: IntT, Name: "num"}, Param{T: ArrayOf(ArrayOf(FiletypeT("txt"))), Name: "ff"},
-		Param{T: TMapOf(ArrayOf(FiletypeT("txt"))), Name: "mfa"}, Param{T: StructT("OUTER"), Name: "so"})
+		Param{T: TMapOf(ArrayOf(FiletypeT("txt"))), Name: "mfa"}, Param{T: StructT("OUTER"), Name: "so"},
+		// din names the file inside the directory output d (mode 0)
+		Param{T: FileT, Name: "din"})
 	prod := &Stage{Name: "FILEW", Fn: "FILEW", Ins: []Param{{T: IntT, Name: "n"}, {T: IntT, Name: "mode"}}, Outs: outs}
 	p.Stages = append(p.Stages, prod)
 	top := &Pipeline{Name: "TOP", Ins: []Param{{T: IntT, Name: "n"}, {T: IntT, Name: "mode"}}}
@@ -1356,6 +1358,19 @@ func OutsFamily(thorough bool) []OutsParams {
 								out = append(out, OutsParams{Outs: set, OutName: on, Size: size, Mode: mode, ProdMap: pm, TopMap: tm, Wrap: wr})
 							}
 						}
+					}
+				}
+			}
+		}
+	}
+	// a directory output and a file output naming a file inside that
+	// directory, in both declaration orders
+	for _, set := range [][]string{{"d", "din"}, {"din", "d"}, {"din"}} {
+		for _, on := range []bool{false, true} {
+			for _, pm := range []bool{false, true} {
+				for _, tm := range []bool{false, true} {
+					for _, wr := range []bool{false, true} {
+						out = append(out, OutsParams{Outs: set, OutName: on, Size: 2, ProdMap: pm, TopMap: tm, Wrap: wr})
 					}
 				}
 			}
